@@ -100,7 +100,7 @@ def handle (toks : List String) : String :=
   | "api" :: rest => Drive.handleApi rest
   | "helper" :: rest => Drive.handleHelper rest
   | ["verify", prog] => Drive.handleVerify prog
-  | "exec" :: rest => Drive.handleExec rest
+  | "exec" :: rest => Drive.handleExec rest ++ Drive.clifIrField rest
   | "x86" :: rest => Drive.handleX86 rest
   | ["clifdump", p, ids] => Drive.handleClifDump p ids
   | ["clifdump", p, ids, "res"] => Drive.handleClifDumpR p ids
